@@ -64,7 +64,7 @@ theorem op_doc_case (c : Ctx) (root : Val) (env : Env) (hr : EnvRel c root env) 
                 obtain ⟨h12, h3⟩ := append_nil2 h123
                 obtain ⟨h1, h2⟩ := append_nil2 h12
                 have htz : hasTzKeys (.doc gs) = false := singleton_if_nil _ _ h2
-                exact whole_core c root env hr k (.doc gs) hsub.self rfl htz h1 h3 h4 h5
+                exact whole_core c root env hr k (.doc gs) hsub.self rfl htz hacc' h1 h3 h4
                   (fun a ha' => by rw [ha'] at h6; exact h6) res hres
               · have hst' : strictOps.contains k = false := by simpa using hst
                 simp only [hst', Bool.false_eq_true, if_false] at hre
